@@ -162,8 +162,11 @@ def run_core(pid, tier, seed, plan):
                     cfg.update(camp.get("extra", {}))
                     if tw is not None:
                         cfg["twin"] = tw
-                    jobs.append((cfg, b, "%s-%s-%d-%s-%s%s" % (pid, camp["name"], i, render, filefam,
-                                                              "-t%d" % twins.index(tw) if tw is not None else "")))
+                    for rep in range(camp.get("repeat", 1)):
+                        jobs.append((dict(cfg, salt=cfg["salt"] + rep) if rep else cfg, b,
+                                     "%s-%s-%d-%s-%s%s%s" % (pid, camp["name"], i, render, filefam,
+                                                             "-t%d" % twins.index(tw) if tw is not None else "",
+                                                             "-r%d" % rep if rep else "")))
         results = engine.replay_many(gitai, jobs, executor=cplan.get("executor"))
         errs = [(i, e) for i, (_, _, e) in enumerate(results) if e]
         total["harness_errors"] += len(errs)
